@@ -118,11 +118,25 @@ def draw_sigma_boundaries(rng: random.Random, layers: int, uneven=True):
 
 
 def draw_tref(rng: random.Random, layers: int, constant=False):
+  """Reference temperature profile: warming downward, cooling downward,
+  inversion (non-monotonic) or constant."""
   if constant:
     return [rng.choice([250.0, 288.0])] * layers
+  kind = rng.choice(['warming', 'warming', 'cooling', 'inversion', 'noisy'])
   base = rng.uniform(210, 230)
-  return [float(base + (290 - base) * (i + 0.5) / layers + rng.uniform(-3, 3))
-          for i in range(layers)]
+  out = []
+  for i in range(layers):
+    f = (i + 0.5) / layers
+    if kind == 'warming':
+      t = base + (290 - base) * f + rng.uniform(-3, 3)
+    elif kind == 'cooling':
+      t = 290 - (290 - base) * f
+    elif kind == 'inversion':
+      t = base + 60 * abs(f - 0.5)
+    else:
+      t = rng.uniform(220, 290)
+    out.append(float(t))
+  return out
 
 
 # ----------------------------------------------------------------------------
